@@ -126,26 +126,32 @@ func (p *Parser) parseTransaction() *ast.Transaction {
 	}
 
 	p.expectFreeText()
+	desc, hasText := "", false
 	if p.current.Type == TokenText {
-		desc := p.current.Value
+		desc, hasText = p.current.Value, true
 		tx.PayeeRange = ast.Range{Start: toASTPosition(p.current.Pos), End: toASTPosition(p.current.End)}
 		p.advance()
-
-		if p.current.Type == TokenPipe {
-			tx.Payee = strings.TrimSpace(desc)
-			p.advance()
-			p.expectFreeText()
-			if p.current.Type == TokenText {
-				tx.Note = strings.TrimSpace(p.current.Value)
-				p.advance()
-			}
-			tx.Description = tx.Payee
-			if tx.Note != "" {
-				tx.Description = tx.Payee + " | " + tx.Note
-			}
-		} else {
-			tx.Description = desc
+	}
+	if p.current.Type == TokenPipe {
+		// the first "|" separates payee and note; the payee may be empty, and
+		// whatever follows, further "|" included, is the note
+		tx.Payee = strings.TrimSpace(desc)
+		p.advance()
+		switch p.current.Type {
+		case TokenNewline, TokenEOF, TokenComment:
+		default:
+			p.current = p.lexer.RescanAsNote(p.current.Pos)
 		}
+		if p.current.Type == TokenText {
+			tx.Note = strings.TrimSpace(p.current.Value)
+			p.advance()
+		}
+		tx.Description = tx.Payee
+		if tx.Note != "" {
+			tx.Description = strings.TrimSpace(tx.Payee + " | " + tx.Note)
+		}
+	} else if hasText {
+		tx.Description = desc
 	}
 
 	if p.current.Type == TokenComment {
